@@ -74,6 +74,7 @@ package qbft
 //@ requires nodesOK(d)
 //@ requires msg.Type() == MsgDecided
 //@ ensures result <==> len(filterMsgs(msg.Justification(), MsgCommit, msg.Round(), ptr(msg.Value()), nil, nil)) >= quorum(d)
+//@ ensures result ==> len(msg.Justification()) >= quorum(d)
 //@ canary result
 
 //@ func getSingleJustifiedPrPv
@@ -150,7 +151,9 @@ package qbft
 //@ ensures msg.Type() == MsgPrePrepare ==> result == isJustifiedPrePrepare(d, instance, msg, compareFailureRound)
 //@ ensures msg.Type() == MsgRoundChange ==> result == isJustifiedRoundChange(d, msg)
 //@ ensures msg.Type() == MsgDecided ==> result == isJustifiedDecided(d, msg)
+//@ ensures msg.Type() == MsgDecided ==> (result <==> len(filterMsgs(msg.Justification(), MsgCommit, msg.Round(), ptr(msg.Value()), nil, nil)) >= quorum(d))
 //@ ensures msg.Type() == MsgPrepare || msg.Type() == MsgCommit ==> result
+//@ ensures msg.Type() == MsgDecided && result ==> len(msg.Justification()) >= quorum(d)
 
 //@ func (t MsgType) Valid
 //@ props C05
@@ -187,3 +190,40 @@ package qbft
 //@ ensures r0 == UponUnjustQuorumRoundChanges ==> msg.Type() == MsgRoundChange && msg.Round() == round
 //@ ensures r0 >= UponNothing && r0 <= UponJustifiedDecided
 //@ canary r0 == UponNothing
+
+// ---- Run: the event loop as a step function ---------------------------------------------------
+// Ghost history: rounds for which this process has broadcast a PREPARE / COMMIT.
+// Broadcast arguments: a2 typ, a3 instance, a4 source, a5 round, a6 value, a7 pr, a8 pv, a9 justification.
+
+//@ spec func preparedOK(d Definition, pr int64, pv V, pj []Msg, round int64) bool =
+//@+   (pr == 0 && pv == zero(V) && len(pj) == 0) ||
+//@+   (pr >= 1 && pr <= round && len(pj) >= quorum(d) && distinctSources(pj) && allOf(pj, MsgPrepare, pr, pv))
+
+//@ func Run
+//@ props C01 C02 C03 C04
+//@ requires nodesOK(d)
+//@ recvassume t.Receive: validType(a1) && a1.Round() >= 1 && a1.PreparedRound() >= 0
+//@ ghost sentPrepare map[int64]bool
+//@ ghost sentCommit map[int64]bool
+//@ ghostcall t.Broadcast: sentPrepare[a5] = sentPrepare[a5] || a2 == MsgPrepare
+//@ ghostcall t.Broadcast: sentCommit[a5] = sentCommit[a5] || a2 == MsgCommit
+//@ callreq t.Broadcast: a4 == process && a5 == round && a5 >= 1
+//@ callreq t.Broadcast: a2 == MsgPrepare ==> !sentPrepare[a5] && len(qCommit) == 0
+//@ callreq t.Broadcast: a2 == MsgCommit ==> !sentCommit[a5] && len(qCommit) == 0 && a6 == msg.Value() && len(justification) >= quorum(d) && distinctSources(justification) && allOf(justification, MsgPrepare, round, a6)
+//@ callreq t.Broadcast: a2 == MsgRoundChange ==> a6 == zero(V) && a7 == preparedRound && a8 == preparedValue && a9 == preparedJustification && len(qCommit) == 0
+//@ callreq t.Broadcast: a2 == MsgRoundChange ==> (len(a9) == 0 && a7 == 0 && a8 == zero(V)) || (len(a9) > 0 && len(a9) >= quorum(d) && distinctSources(a9) && allOf(a9, MsgPrepare, a7, a8))
+//@ callreq t.Broadcast: a2 == MsgPrePrepare ==> d.IsLeader(instance, round, process)
+//@ callreq t.Broadcast: a2 == MsgDecided ==> len(qCommit) > 0 && a6 == qCommitValue && a9 == qCommit
+//@ callreq t.Broadcast: a2 == MsgPrePrepare || a2 == MsgPrepare || a2 == MsgCommit || a2 == MsgRoundChange || a2 == MsgDecided
+//@ callreq d.Decide: ncalls(d.Decide) == 0
+//@ callreq d.Decide: a3 == msg.Value() && a4 == msg.Round() && a5 == justification
+//@ callreq d.Decide: (rule == UponQuorumCommits && len(a5) >= quorum(d) && distinctSources(a5) && allOf(a5, MsgCommit, a4, a3)) || (rule == UponJustifiedDecided && msg.Type() == MsgDecided && len(filterMsgs(a5, MsgCommit, a4, ptr(a3), nil, nil)) >= quorum(d))
+//@ loop 1 invariant round >= 1
+//@ loop 1 invariant len(qCommit) == 0 ==> all(r, int64, sentPrepare[r] ==> r <= round && (r == round ==> dedupRules[dedupKey{UponRule: UponJustifiedPrePrepare, Round: round}]))
+//@ loop 1 invariant len(qCommit) == 0 ==> all(r, int64, sentCommit[r] ==> r <= round && (r == round ==> dedupRules[dedupKey{UponRule: UponQuorumPrepares, Round: round}]))
+//@ loop 1 invariant len(qCommit) == 0 ==> preparedRound >= 0 && preparedRound <= round
+//@ loop 1 invariant len(qCommit) == 0 && preparedRound == 0 ==> preparedValue == zero(V) && len(preparedJustification) == 0
+//@ loop 1 invariant len(qCommit) == 0 && preparedRound != 0 ==> len(preparedJustification) >= quorum(d) && distinctSources(preparedJustification) && allOf(preparedJustification, MsgPrepare, preparedRound, preparedValue)
+//@ loop 1 invariant (len(qCommit) > 0 <==> ncalls(d.Decide) == 1) && (len(qCommit) == 0 <==> ncalls(d.Decide) == 0)
+//@ loop 1 invariant ppjCache != nil ==> d.IsLeader(instance, round, process)
+//@ loop 1 invariant len(qCommit) > 0 ==> timerChan == nil
